@@ -148,6 +148,12 @@ def check(ctx):
     rep.rule('U1', "hclust: squareform then linkage(method='average') (UPGMA)")
     rep.rule('U2', 'linkage_to_bio_tree: index arithmetic and height differences, identical for both children; node numbering; leaves')
     rep.rule('U3', 'tree_cmd: labels and signatures from one source')
+    from ..clirules import check_path_types
+    check_path_types(rep, ctx.model, 'U3')
+    # the distance kernel merges SORTED duplicate-free arrays: signatures computed from genome files meet that precondition (C01-K7 re-evaluated)
+    from . import c01
+    rep.rule('K7', 'C01-K7 re-evaluated: every accumulator returns a sorted, duplicate-free signature of the right dtype (the kernel precondition)')
+    c01.analyse_accumulators(ctx)
     rep.rule('U4', 'tree_cmd: pairwise (non-flat) matrix of those signatures goes unchanged through hclust and linkage_to_bio_tree to Newick')
     rep.trusted += ["scipy.cluster.hierarchy.linkage(method='average') is UPGMA with non-decreasing merge heights; row i creates node n + i", 'Bio.Phylo Newick writer']
     fh = m.func(f'{CL}.hclust')
